@@ -1211,6 +1211,23 @@ def result_table(ix, e, depth=0, unwrap=("Option::Some", "Result::Ok")):
     """[(conditions, leaf expression)] for the values an expression can produce: through immutable lets, if/else, match arms
     (an arm contributes {"k": "armpat", "scrut", "pat"} and its guard; earlier guarded arms of the same pattern contribute their negated guard),
     blocks and the wrappers in `unwrap`.  Conditions are (node, polarity) pairs as in path_conditions."""
+    e0 = e
+    while e0.get("k") == "ref":
+        e0 = e0["e"]
+    if e0.get("k") == "blockexpr" and "inl_id" in e0 and depth <= 8:
+        # an inlined helper: its value is what its exits return (each under the conditions of that exit inside the helper) or its tail
+        exits = [x for x in walk(e0) if x.get("k") == "ireturn" and x.get("inl") == e0["inl_id"] and "e" in x]
+        if exits:
+            out = []
+            for x in exits:
+                pre = path_conditions(ix, x, upto=e0)
+                out += [(pre + cs, leaf) for cs, leaf in result_table(ix, x["e"], depth + 1, unwrap)]
+            t = e0["b"].get("tail")
+            while t is not None and t.get("k") == "blockexpr" and "tail" in t["b"]:
+                t = t["b"]["tail"]
+            if t is not None and not _diverges(t) and not (t.get("k") == "loop" and not any(y.get("k") == "break" for y in walk(t))):
+                out += result_table(ix, e0["b"]["tail"], depth + 1, unwrap)
+            return out
     e = tail_value(e)
     if depth > 8:
         return [([], e)]
@@ -1247,10 +1264,23 @@ def result_table(ix, e, depth=0, unwrap=("Option::Some", "Result::Ok")):
         return out
     if k == "blockexpr":
         b = e["b"]
+        if "inl_id" in e:
+            # an inlined helper: its value is what its exits return (each under the conditions of that exit inside the helper) or its tail
+            exits = [x for x in walk(e) if x.get("k") == "ireturn" and x.get("inl") == e["inl_id"] and "e" in x]
+            if exits:
+                out = []
+                for x in exits:
+                    pre = path_conditions(ix, x, upto=e)
+                    out += [(pre + cs, leaf) for cs, leaf in result_table(ix, x["e"], depth + 1, unwrap)]
+                if "tail" in b and not _diverges(b["tail"]) and not (peel(b["tail"]).get("k") == "loop" and not any(y.get("k") == "break" for y in walk(b["tail"]))):
+                    out += result_table(ix, b["tail"], depth + 1, unwrap)
+                return out
         if "tail" in b:
             return result_table(ix, b["tail"], depth + 1, unwrap)
     if k in ("return", "ireturn") and "e" in e:
         return result_table(ix, e["e"], depth + 1, unwrap)
+    if k == "try" and unwrap and peel(e["e"]).get("k") in ("blockexpr", "match", "if"):
+        return result_table(ix, e["e"], depth + 1, unwrap)      # `x?` continues with the payload of Some(..) / Ok(..)
     return [([], e)]
 
 
